@@ -206,13 +206,36 @@ class G2:
                 assigns = [a for a in walk(body, pats=False) if a.get("k") == "Assign"]
                 if any(any(x.get("k") == "Path" and x.get("res") in loopvar_names for x in walk(a["r"], pats=False)) for a in assigns):
                     verdicts.append(("UNSAFE", "records the first matching element and stops (selection by hash order)", brk[0]))
-        if len(set(kinds)) >= 2:
+        if len(set(kinds)) >= 2 and self.sort_breaks_ties_by_title(set(kinds)):
+            verdicts.append(("CANON", f"pushes {len(set(kinds))} kinds {sorted(set(map(str, kinds)))} whose titles differ; the later sort orders ties in (file, range) by title", None))
+        elif len(set(kinds)) >= 2:
             verdicts.append(("CANON2", f"pushes {len(set(kinds))} kinds of diagnostics {sorted(set(map(str, kinds)))} from one hash-ordered loop: items that tie in (file, range) keep the hash order after the stable sort", None))
         elif len(set(kinds)) == 1:
             verdicts.append(("CANON", f"only pushes `{kinds[0]}` diagnostics, canonicalised by the later stable sort", None))
         if not verdicts:
             return ("SAFE", f"body only performs set/map updates, accumulations or existence tests ({set_ops} set ops)", None)
         return worst(verdicts)
+
+    def sort_breaks_ties_by_title(self, kinds):
+        """the order used to sort diagnostics compares the title after (file, range), and the given LintError kinds have pairwise
+        different titles: two diagnostics on the same text then have an order that does not depend on discovery order"""
+        from .p_c08 import self_match, arm_table, str_lits
+        F = self.F
+        if getattr(self, "_titles", None) is None:
+            cmpf = [q for q in F.fns if q.endswith("diagnostics::DiagnosticItem as core::cmp::Ord>::cmp")]
+            body = F.fn(cmpf[0])["hir"]["value"] if cmpf else {}
+            flds = [n["name"] for n in walk(body, pats=False) if n.get("k") == "Field"]
+            self._cmp_uses_title = "title" in flds and "range" in flds and "file" in flds
+            LINTERR = "riscv_analysis::passes::lint_error::LintError"
+            try:
+                tm = self_match(F, F.method(LINTERR, "get_title", trait="IsSomeDisplayableDiagnostic"), LINTERR)
+                self._titles = {v: (str_lits(arm["body"]) or [None])[0] for v, arm in arm_table(tm)}
+            except Exception:
+                self._titles = {}
+        if not self._cmp_uses_title:
+            return False
+        ts = [self._titles.get(k) for k in kinds]
+        return all(t for t in ts) and len(set(ts)) == len(ts)
 
     # ---------------------------------------------------------------- sequence variables
     def seq_var(self, f, name, after, depth=0, why=""):
